@@ -341,15 +341,16 @@ def parse_impl(path):
         body = code[bo:bc + 1]
         nparams = len(split_top(params))
         rets = re.findall(r"\breturn\s+([^;]+);", body)
+        # what the overload returns after the catch blocks (its last `return`) and when the context is not initialised
         if m.group(1) == "void":
             ov["void"] = dict(nparams=nparams, err=None)
         elif nparams == 3:
-            if "return errval" not in body:
-                die("source: execute(errval) overload no longer returns errval")
+            if not rets or rets[-1].strip() != "errval" or any(r.strip() not in ("errval", "f()") for r in rets):
+                die("source: the execute(errval) overload no longer returns errval on every error path: %s" % rets)
             ov["errval"] = dict(nparams=3, err="errval")
         else:
-            if not any(r.strip() == "nullptr" for r in rets):
-                die("source: pointer execute overload no longer returns nullptr")
+            if not rets or rets[-1].strip() != "nullptr" or any(r.strip() not in ("nullptr", "f()") for r in rets):
+                die("source: the pointer execute overload no longer returns nullptr on every error path: %s" % rets)
             ov["null"] = dict(nparams=2, err="null")
         if m.group(1) != "void" or True:
             if "catch" not in body or "ERROR_MESSAGE" not in body:
